@@ -215,6 +215,63 @@ fn linearization(rep: &Reporter, lang: &str, st: &Stats) -> (u64, u64) {
       }
     }
   }
+  // the same for `$$$A`: both occurrences must capture lists that spell the same tokens; an EMPTY
+  // list is a binding like any other (whichever occurrence is matched first)
+  let lists: &[&str] = &["", "a", "b", "a, b", "b, a", "a, a", "a, b, a"];
+  let mforms: &[(&str, &str, &str)] = &[
+    ("h(f($$$A), g($$$A))", "h(f($$$A), g($$$B))", "h(f({x}), g({y}))"),
+    ("h(f($$$A), $$$A)", "h(f($$$A), $$$B)", "h(f({x}), {y})"),
+    ("h($$$A, f($$$A))", "h($$$A, f($$$B))", "h({x}, f({y}))"),
+  ];
+  for (orig, lin, form) in mforms {
+    let (Ok(po), Ok(pl)) = (Pattern::try_new(orig, spec.lang), Pattern::try_new(lin, spec.lang)) else { continue };
+    for x in lists {
+      for y in lists {
+        let mut body = form.replace("{x}", x).replace("{y}", y);
+        body = body.replace("(, ", "(").replace(", )", ")");
+        let src = match lang {
+          "rust" => format!("fn m() {{ {body}; }}\n"),
+          _ => format!("{body}\n"),
+        };
+        let g = spec.lang.ast_grep(&src);
+        if g.root().dfs().any(|n| n.is_error()) {
+          continue;
+        }
+        let mut nodes = vec![];
+        all_nodes(&g.root(), &mut nodes);
+        for n in &nodes {
+          cases += 1;
+          let ml = pl.match_node(n.clone());
+          let mo = po.match_node(n.clone()).is_some();
+          let want = match &ml {
+            None => false,
+            Some(nm) => {
+              let toks = |v: &str| {
+                let mut t = vec![];
+                for k in nm.get_env().get_multiple_matches(v).iter().filter(|k| k.is_named()) {
+                  let mut one = vec![];
+                  leaf_tokens(k, &mut one);
+                  t.push(one);
+                }
+                t
+              };
+              let (ta, tb) = (toks("A"), toks("B"));
+              if ta == tb {
+                equal_pairs += 1;
+              }
+              ta == tb
+            }
+          };
+          if mo != want {
+            rep.violation(
+              &format!("repeated-multi-variable:{}", if mo { "matched-although-the-lists-differ" } else { "rejected-although-the-lists-are-identical" }),
+              json!({"lang": lang, "pattern": orig, "linearised": lin, "src": src, "node": {"kind": n.kind(), "range": [n.range().start, n.range().end]}}),
+            );
+          }
+        }
+      }
+    }
+  }
   st.evals.fetch_add(cases, Ordering::Relaxed);
   (cases, equal_pairs)
 }
